@@ -240,7 +240,7 @@ func run(c *mc.Ctx) {
 		if err != nil || val(bs).Cmp(new(big.Int).SetBit(new(big.Int).Set(v), 255, 0)) != 0 {
 			w.Fail("SetBits", fmt.Sprintf("SetBits(%x) wrong", b), cas)
 		}
-		if below {
+		if below && s != nil {
 			// IsCanonical on canonical decode; round trip
 			if !s.IsCanonical() {
 				w.Fail("Scalar.IsCanonical", "canonical value reported non-canonical", cas)
